@@ -1,8 +1,183 @@
-(* C06 — property theorems only. *)
+(* C06 — property theorems only.  Every proof is `exact <lemma>` (or a closed computation for a refutation
+   witness / a finite generated table); Print Assumptions follows each.
+
+   Model (C06/Model.v): the store of a local key manager, every KMS call expanded into its exact sequence of
+   store calls, optional death of the process at any store mutation of the call.  A key manager holds nothing
+   but the store, so every statement about "the store afterwards" is a statement about ANY key manager later
+   opened over it.  `Fixed` is /repo after the fix: commits (Rotate writes the new entry before deleting the old
+   one; an import without a requested id gets the thumbprint id); `AsIs` is the code as found.
+   `repo_variant` is read from /repo's source by the translator on every run. *)
 From Coq Require Import List NArith Bool String.
 Import ListNotations.
 From VF Require Import C06.Model C06.Proofs.
+Local Open Scope N_scope.
 
-Theorem reopen_is_identity : forall ro st, st_store (fst (step ro st (KReopen, None))) = st_store st.
-Proof. intros ro st. reflexivity. Qed.
-Print Assumptions reopen_is_identity.
+(* the source of /repo has the repaired order and id rule (regenerated table) *)
+Theorem repo_is_fixed : repo_variant = Fixed.
+Proof. reflexivity. Qed.
+Print Assumptions repo_is_fixed.
+
+(* DURABLE.  The id returned by create / create-and-export / import / rotate, in any state, names a stored keyset
+   whose primary key is the returned key and whose other keys were all in the store before (rotation keeps them);
+   and after ANY further history — calls of any kind with any arguments, failing, interrupted at any store
+   mutation, key managers reopened — that does not rotate that very id, a key manager opened over the store
+   finds exactly that keyset under that id. *)
+Theorem durable : forall st o c id k rest,
+  snd (step Fixed st (o, c)) = OId id k \/ snd (step Fixed st (o, c)) = OIdPub id k ->
+  (forall oc, In oc rest -> fst oc <> KRotate id) ->
+  exists ks,
+    lookup (st_store (fst (step Fixed st (o, c)))) id = Some ks /\ primary ks = Some k /\
+    lookup (st_store (fst (run Fixed (fst (step Fixed st (o, c))) rest))) id = Some ks.
+Proof.
+  intros st o c id k rest H NR.
+  destruct (returned_is_stored Fixed st o c id k H) as (ks & L & P & _).
+  exists ks. split; [exact L|]. split; [exact P|]. apply run_keeps_entry; assumption.
+Qed.
+Print Assumptions durable.
+
+(* an entry changes only through a COMPLETED rotation of its id, which returns the id under which all its keys,
+   in order, followed by the new primary key, are stored from then on *)
+Theorem entry_changes_only_by_its_rotation : forall st oc id ks,
+  lookup (st_store st) id = Some ks ->
+  lookup (st_store (fst (step Fixed st oc))) id = Some ks \/
+  (fst oc = KRotate id /\ exists nid,
+     snd (step Fixed st oc) = OId nid (st_pos st) /\ nid <> id /\
+     lookup (st_store (fst (step Fixed st oc))) nid =
+       Some {| ks_kt := ks_kt ks; ks_keys := ks_keys ks ++ [st_pos st] |} /\
+     lookup (st_store (fst (step Fixed st oc))) id = None).
+Proof. exact step_entry. Qed.
+Print Assumptions entry_changes_only_by_its_rotation.
+
+(* CRASH SAFE (full).  For every state, every operation and every point at which the process may die inside it
+   (before any of its store mutations), every entry that was in the store is still there, unchanged, under its
+   id, for whatever key manager is opened next. *)
+Theorem crash_safe : forall st o n id ks,
+  snd (step Fixed st (o, Some n)) = OCrashed ->
+  lookup (st_store st) id = Some ks ->
+  lookup (st_store (fst (step Fixed st (o, Some n)))) id = Some ks.
+Proof.
+  intros st o n id ks H L. rewrite step_store.
+  destruct (step_cases Fixed st o (Some n)) as [(n' & pre & E & S & C & O) | (C & O)].
+  - rewrite C. eapply crash_keeps_entries; eassumption.
+  - destruct (step_entry st (o, Some n) id ks L) as [K | (_ & nid & K & _)].
+    + rewrite step_store in K. exact K.
+    + rewrite H in K. discriminate.
+Qed.
+Print Assumptions crash_safe.
+
+(* no operation sequence — completed, failing or interrupted anywhere — ever destroys key material *)
+Theorem key_material_never_destroyed : forall ops st k,
+  has_key (st_store st) k -> has_key (st_store (fst (run Fixed st ops))) k.
+Proof. exact run_keeps_key. Qed.
+Print Assumptions key_material_never_destroyed.
+
+(* the code as found: Rotate interrupted between its Delete and its Put loses the key (observation #14) *)
+Theorem crash_safe_asis_refuted :
+  let st := {| st_store := asis_witness_store; st_pos := 1 |} in
+  snd (step AsIs st (KRotate (KThumb 0), Some 1%nat)) = OCrashed /\
+  has_keyb (st_store (fst (step AsIs st (KRotate (KThumb 0), Some 1%nat)))) 0 = false /\
+  entries_kept (st_store st) (st_store (fst (step Fixed st (KRotate (KThumb 0), Some 1%nat)))) = true.
+Proof. vm_compute. repeat split. Qed.
+Print Assumptions crash_safe_asis_refuted.
+
+(* IMPORT NEVER OVERWRITES: an import under a caller-chosen id that is in use fails and changes nothing;
+   more generally no store Put of any operation ever hits an id that is present *)
+Theorem import_no_overwrite : forall v st kt u k c ks,
+  lookup (st_store st) (KUser u) = Some ks ->
+  snd (step v st (KImport kt (Some u) k, c)) = OErr /\
+  st_store (fst (step v st (KImport kt (Some u) k, c))) = st_store st.
+Proof. exact import_existing_refused. Qed.
+Print Assumptions import_no_overwrite.
+
+Theorem no_put_overwrites : forall v s p o, puts_fresh s (fst (plan v s p o)).
+Proof. exact plan_puts_fresh. Qed.
+Print Assumptions no_put_overwrites.
+
+(* KEY IDS.  For the key types the generated table marks as thumbprint-identified (every asymmetric type), the id
+   returned by create, create-and-export and rotate is the thumbprint id of the returned (primary) key ... *)
+Theorem created_key_id_is_thumbprint : forall v st kt c id k,
+  kt_random_id kt = false ->
+  snd (step v st (KCreate kt, c)) = OId id k \/ snd (step v st (KCreateExport kt, c)) = OIdPub id k ->
+  id = KThumb k /\ k = st_pos st.
+Proof. exact create_id_is_thumbprint. Qed.
+Print Assumptions created_key_id_is_thumbprint.
+
+Theorem rotated_key_id_is_thumbprint : forall v st old ks c id k,
+  lookup (st_store st) old = Some ks -> kt_random_id (ks_kt ks) = false ->
+  snd (step v st (KRotate old, c)) = OId id k ->
+  id = KThumb k /\ k = st_pos st.
+Proof. exact rotate_id_is_thumbprint. Qed.
+Print Assumptions rotated_key_id_is_thumbprint.
+
+(* ... an import returns the caller's id when one is given and otherwise (repaired code) the thumbprint id ... *)
+Theorem imported_key_id : forall st kt u k c id k',
+  snd (step Fixed st (KImport kt u k, c)) = OId id k' ->
+  k' = k /\ match u with
+            | Some n => id = KUser n
+            | None => import_thumb_type kt = true -> id = KThumb k
+            end.
+Proof. exact import_id. Qed.
+Print Assumptions imported_key_id.
+
+Theorem imported_key_id_asis_refuted :
+  snd (step AsIs init (KImport K_ED25519 None 1000, None)) = OId (KRand 0) 1000 /\
+  snd (step Fixed init (KImport K_ED25519 None 1000, None)) = OId (KThumb 1000) 1000.
+Proof. split; vm_compute; reflexivity. Qed.
+Print Assumptions imported_key_id_asis_refuted.
+
+(* ... and in every store reached from the empty one a thumbprint id names the keyset whose primary key it is
+   the thumbprint of (stable identification) *)
+Theorem thumbprint_id_names_its_key : forall v ops k ks,
+  lookup (st_store (fst (run v init ops))) (KThumb k) = Some ks -> primary ks = Some k.
+Proof.
+  intros v ops. apply (run_thumb_wf v ops init). intros k ks L. discriminate.
+Qed.
+Print Assumptions thumbprint_id_names_its_key.
+
+(* the thumbprint is a function of the public key alone and distinguishes public keys: the RFC 7638 pre-image
+   (whose SHA-256 the harness checks to be the id the KMS returned) determines the coordinates *)
+Theorem thumbprint_preimage_injective : forall c xs ys xs' ys',
+  noq xs -> noq ys -> noq xs' -> noq ys' ->
+  preimage c xs ys = preimage c xs' ys' ->
+  xs = xs' /\ (is_ec c = true -> ys = ys').
+Proof. exact preimage_inj. Qed.
+Print Assumptions thumbprint_preimage_injective.
+
+(* every key type with a thumbprint id has a pre-image form; the types with a random id have none *)
+Theorem kid_defined_iff_preimage : forall kt,
+  kt_kid_defined kt = match kt_curve kt with Some _ => true | None => false end.
+Proof. destruct kt; reflexivity. Qed.
+Print Assumptions kid_defined_iff_preimage.
+
+Theorem thumbprint_types_are_the_asymmetric_creatable_ones : forall kt,
+  kt_creatable kt = true -> (kt_random_id kt = false <-> kt_kid_defined kt = true).
+Proof. destruct kt; cbn; intro H; split; intro; try reflexivity; try discriminate. Qed.
+Print Assumptions thumbprint_types_are_the_asymmetric_creatable_ones.
+
+(* DID:KEY FORM.  For every key type (generated tables: multicodec, re-encoding done by BuildDIDKeyByKeyType) the
+   did:key built from the exported public key carries an encoding that the did:key readers decode *)
+Theorem didkey_form : forall kt ce, build_didkey kt = Some ce -> didkey_readable ce = true.
+Proof. exact didkey_readable_all. Qed.
+Print Assumptions didkey_form.
+
+(* as found (observation #30): ECDSA signing keys were put under the NIST-P multicodecs as exported *)
+Theorem didkey_form_asis_refuted :
+  exists kt ce, build_didkey_with asis_didform kt = Some ce /\ didkey_readable ce = false /\
+                build_didkey kt = Some (fst ce, ECompressed).
+Proof. exists K_ECDSAP256DER, (4608, EPkixDer). vm_compute. repeat split. Qed.
+Print Assumptions didkey_form_asis_refuted.
+
+(* non-vacuity: a history with creations, imports, rotations, a crash inside a rotation, reopening *)
+Example durable_nonvacuous :
+  let ops := [(KCreate K_ED25519, None); (KImport K_ECDSAP256DER (Some 1) 1000, None);
+              (KRotate (KThumb 0), Some 1%nat); (KReopen, None); (KRotate (KThumb 0), None);
+              (KImport K_ECDSAP256DER (Some 1) 1001, None); (KCreate K_AES256GCM, Some 0%nat);
+              (KGet (KThumb 4), None)] in
+  let '(st, outs) := run Fixed init ops in
+  nth 2%nat outs OErr = OCrashed /\ nth 4%nat outs OErr = OId (KThumb 4) 4 /\
+  nth 5%nat outs ODone = OErr /\ nth 6%nat outs ODone = OCrashed /\
+  nth 7%nat outs OErr = OKeys [0; 4] /\
+  option_map ks_keys (lookup (st_store st) (KThumb 2)) = Some [0; 2] /\
+  lookup (st_store st) (KThumb 0) = None /\
+  option_map ks_keys (lookup (st_store st) (KUser 1)) = Some [1000].
+Proof. vm_compute. repeat split. Qed.
